@@ -52,6 +52,10 @@ type c09fn struct {
 	// plays the acquire role: method of a limiter type returning (bool, time.Duration, ...)
 	// that touches the guarded state itself
 	acquire bool
+	// a literal handed to a same-package helper that only calls it (callback iterator): it runs
+	// synchronously during that call, i.e. in the lock state the enclosing function has there
+	syncStates []*flow.State
+	syncParent *c09fn
 }
 
 type c09group struct {
@@ -279,6 +283,34 @@ func c09lockAnalyze(c *core.Ctx, lim *c09limiter, fn *c09fn) {
 				switch {
 				case w == flow.True || (!write && r == flow.True):
 					g.held++
+				case w == flow.Unknown && r == flow.Unknown && fn.syncStates != nil:
+					// the closure runs during the call it is handed to: the caller's lock state counts
+					all, none := true, false
+					for _, ps := range fn.syncStates {
+						pw, pr := ps.Get("ev:w:"+k), ps.Get("ev:r:"+k)
+						switch {
+						case pw == flow.True || (!write && pr == flow.True):
+						case pw == flow.Unknown && pr == flow.Unknown:
+							all = false
+						default:
+							all, none = false, true
+						}
+					}
+					root, _ := ast.Unparen(sel.X).(*ast.Ident)
+					p := fn.syncParent
+					switch {
+					case all:
+						g.held++
+					case !none && p != nil && p.fd != nil && root != nil && p.recv != nil && c09obj(f, root) == p.recv:
+						// neither the closure nor its caller locks: the caller's callers must
+						p.needsEntry = true
+						p.needsWrite = p.needsWrite || write
+						g.held++
+					default:
+						if g.unheld == nil {
+							g.unheld, g.unheldAt = st, sel
+						}
+					}
 				case w == flow.Unknown && r == flow.Unknown:
 					root, _ := ast.Unparen(sel.X).(*ast.Ident)
 					if root != nil && fn.recv != nil && c09obj(f, root) == fn.recv && fn.fd != nil && locksSelf {
@@ -377,6 +409,12 @@ func c09Locks(c *core.Ctx) (*c09limiter, []*c09fn) {
 				inLit[call] = true
 			}
 			lf := &c09fn{f: f.Lit(lit), name: fn.name + "$closure"}
+			if call := c09syncCallbackCall(f, pkg, fd.Body, lit); call != nil && !goCalls[call] {
+				lf.syncStates, lf.syncParent = fn.res.At[call], fn
+				if len(lf.syncStates) == 0 {
+					return true // the call is unreachable
+				}
+			}
 			c09lockAnalyze(c, lim, lf)
 			if lf.res != nil {
 				fns = append(fns, lf)
@@ -652,10 +690,62 @@ func c09reserveOne(c *core.Ctx, lim *c09limiter, fn *c09fn, disabled string) {
 	tokStores, cycStores := map[ast.Node]bool{}, map[ast.Node]bool{}
 	tokLoops, cycLoops := map[ast.Stmt]bool{}, map[ast.Stmt]bool{}
 	holds := map[*ast.BlockStmt]bool{} // helpers that store into the (cycle, tokens) pair
+	// stores made by a literal handed to a callback iterator (forEachToken(tokens, func(i, t int) bool
+	// {..})) count where the iterator is called: the store is made for every element it visits
+	type cbFlags struct{ reserve, tok, cyc bool }
+	cbStores := map[*ast.CallExpr]*cbFlags{}
 	for _, g := range gs {
 		gBody := g.Body
+		syncLit := map[*ast.FuncLit]*ast.CallExpr{}
 		ast.Inspect(g.Body, func(n ast.Node) bool {
-			if _, isLit := n.(*ast.FuncLit); isLit {
+			if lit, ok := n.(*ast.FuncLit); ok {
+				if call := c09syncCallbackCall(g, lim.pkg, gBody, lit); call != nil {
+					syncLit[lit] = call
+				}
+			}
+			return true
+		})
+		ast.Inspect(g.Body, func(n ast.Node) bool {
+			if lit, isLit := n.(*ast.FuncLit); isLit {
+				call := syncLit[lit]
+				if call == nil {
+					return false
+				}
+				if cbStores[call] == nil {
+					cbStores[call] = &cbFlags{}
+				}
+				ast.Inspect(lit.Body, func(m ast.Node) bool {
+					if _, nested := m.(*ast.FuncLit); nested {
+						return false
+					}
+					var targets []ast.Expr
+					switch t := m.(type) {
+					case *ast.AssignStmt:
+						targets = t.Lhs
+						for _, l := range t.Lhs {
+							if sel := c09storeTarget(l); sel != nil && lim.tokens[c09fieldOf(f, sel)] {
+								for _, r := range t.Rhs {
+									if c09mentions(f, r, tainted) {
+										cbStores[call].reserve = true
+									}
+								}
+							}
+						}
+					case *ast.IncDecStmt:
+						targets = []ast.Expr{t.X}
+					}
+					for _, l := range targets {
+						if sel := c09storeTarget(l); sel != nil {
+							switch fld := c09fieldOf(f, sel); {
+							case lim.tokens[fld]:
+								cbStores[call].tok = true
+							case lim.cycle[fld]:
+								cbStores[call].cyc = true
+							}
+						}
+					}
+					return true
+				})
 				return false
 			}
 			var targets []ast.Expr
@@ -756,6 +846,19 @@ func c09reserveOne(c *core.Ctx, lim *c09limiter, fn *c09fn, disabled string) {
 			}
 			if cycStores[n] {
 				st.Set(cycEv, flow.True)
+			}
+		},
+		OnCall: func(st *flow.State, call *ast.CallExpr, callee types.Object, deferred bool) {
+			if fl := cbStores[call]; fl != nil {
+				if fl.reserve {
+					st.Set(reserved, flow.True)
+				}
+				if fl.tok {
+					st.Set(tokEv, flow.True)
+				}
+				if fl.cyc {
+					st.Set(cycEv, flow.True)
+				}
 			}
 		},
 		OnBlock: func(st *flow.State, b *cfg.Block) {
@@ -887,13 +990,33 @@ func c09Dimensions(c *core.Ctx, lim *c09limiter, fns []*c09fn) {
 			continue
 		}
 		f := fn.f
-		var loops []ast.Stmt
+		var loops []ast.Node
 		ast.Inspect(f.Body, func(n ast.Node) bool {
 			switch n.(type) {
 			case *ast.FuncLit:
+				// the body of a loop over the dimensions handed to a callback iterator
+				// (forEachToken(tokens, func(i, token int) bool {..})): the helper holds the loop
+				lit := n.(*ast.FuncLit)
+				if call := c09syncCallbackCall(f, lim.pkg, f.Body, lit); call != nil {
+					if fo, ok := f.Callee(call).(*types.Func); ok {
+						if hd := declOf(lim.pkg, fo); hd != nil {
+							hasLoop := false
+							ast.Inspect(hd.Body, func(x ast.Node) bool {
+								switch x.(type) {
+								case *ast.RangeStmt, *ast.ForStmt:
+									hasLoop = true
+								}
+								return !hasLoop
+							})
+							if hasLoop {
+								loops = append(loops, lit)
+							}
+						}
+					}
+				}
 				return false
 			case *ast.RangeStmt, *ast.ForStmt:
-				loops = append(loops, n.(ast.Stmt))
+				loops = append(loops, n)
 			}
 			return true
 		})
@@ -910,6 +1033,8 @@ func c09Dimensions(c *core.Ctx, lim *c09limiter, fns []*c09fn) {
 				body = x.Body
 			case *ast.ForStmt:
 				body, post = x.Body, x.Post
+			case *ast.FuncLit:
+				body = x.Body
 			}
 			carriedVar := func(e ast.Expr) types.Object {
 				id, ok := ast.Unparen(e).(*ast.Ident)
@@ -1398,4 +1523,80 @@ func c09structVerdict(f *flow.Func, e ast.Expr) (bool, bool) {
 		}
 	}
 	return false, true
+}
+
+// c09syncCallbackCall: lit is an argument of a call (in body) to a same-package function that does
+// nothing with the corresponding func parameter but call it (a callback iterator such as
+// forEachToken(tokens, fn)): the literal then runs synchronously during that call. Returns the call.
+func c09syncCallbackCall(f *flow.Func, pkg *packages.Package, body ast.Node, lit *ast.FuncLit) *ast.CallExpr {
+	var found *ast.CallExpr
+	ast.Inspect(body, func(n ast.Node) bool {
+		call, ok := n.(*ast.CallExpr)
+		if !ok || found != nil {
+			return found == nil
+		}
+		for i, a := range call.Args {
+			if ast.Unparen(a) != ast.Expr(lit) {
+				continue
+			}
+			fo, ok := f.Callee(call).(*types.Func)
+			if !ok || fo.Pkg() != pkg.Types {
+				return true
+			}
+			hd := declOf(pkg, fo)
+			if hd == nil || hd.Type.Params == nil || call.Ellipsis.IsValid() {
+				return true
+			}
+			// the i-th parameter
+			var param types.Object
+			k := 0
+			for _, fld := range hd.Type.Params.List {
+				for _, nm := range fld.Names {
+					if k == i {
+						param = pkg.TypesInfo.Defs[nm]
+					}
+					k++
+				}
+			}
+			if param == nil {
+				return true
+			}
+			// every use of the parameter in the helper is "call it", outside go statements and literals
+			onlyCalled := true
+			callFuns := map[*ast.Ident]bool{}
+			ast.Inspect(hd.Body, func(x ast.Node) bool {
+				switch t := x.(type) {
+				case *ast.GoStmt:
+					if id, ok := ast.Unparen(t.Call.Fun).(*ast.Ident); ok && pkg.TypesInfo.Uses[id] == param {
+						onlyCalled = false
+					}
+				case *ast.CallExpr:
+					if id, ok := ast.Unparen(t.Fun).(*ast.Ident); ok {
+						callFuns[id] = true
+					}
+				case *ast.FuncLit:
+					// used inside a nested literal: may run later
+					ast.Inspect(t.Body, func(y ast.Node) bool {
+						if id, ok := y.(*ast.Ident); ok && pkg.TypesInfo.Uses[id] == param {
+							onlyCalled = false
+						}
+						return true
+					})
+					return false
+				}
+				return true
+			})
+			ast.Inspect(hd.Body, func(x ast.Node) bool {
+				if id, ok := x.(*ast.Ident); ok && pkg.TypesInfo.Uses[id] == param && !callFuns[id] {
+					onlyCalled = false
+				}
+				return true
+			})
+			if onlyCalled {
+				found = call
+			}
+		}
+		return true
+	})
+	return found
 }
